@@ -263,6 +263,12 @@ def write_smtlib(file: typing.TextIO, exprs: typing.List[Node]):
             file.write('\n')
 
 
+def get_tmp_filename_for(filename: str):
+    """Return the name of the temporary file that ``write_smtlib_to_file``
+    writes before it replaces ``filename``."""
+    return f'{filename}.tmp-{os.getpid()}'
+
+
 def write_smtlib_to_file(filename: str, exprs: typing.List[Node]):
     """Use ``write_smtlib`` to write to a filename.
 
@@ -271,7 +277,7 @@ def write_smtlib_to_file(filename: str, exprs: typing.List[Node]):
     an interrupt at any point) ``filename`` thus holds either its previous
     or its new content completely, never an empty or truncated file.
     """
-    tmpname = f'{filename}.tmp-{os.getpid()}'
+    tmpname = get_tmp_filename_for(filename)
     try:
         with open(tmpname, 'w') as file:
             write_smtlib(file, exprs)
